@@ -237,6 +237,22 @@ def md001(v, cfg):
     return must, must_not
 
 
+def md018(v, cfg):
+    """a paragraph line that, after 0-3 leading spaces, starts with 1-6 '#' directly followed by a non-space character
+    (no inline elements on the line, no closing hashes); top-level paragraphs only"""
+    must, must_not = set(), set()
+    for a, b, d in v.paragraphs:
+        if d != 0:
+            continue
+        for ln in range(a, b + 1):
+            line = v.line(ln)
+            m = re.match(r"^ {0,3}(#{1,6})([^#\s].*)$", line)
+            if m and re.fullmatch(r"[A-Za-z0-9 ]+", m.group(2)) and not line.rstrip().endswith("#"):
+                must.add(ln)
+    must_not |= {ln for ln in all_lines(v) if "#" not in v.line(ln)}
+    return must, must_not
+
+
 def md019(v, cfg):
     """Atx heading with more than one space between the last # and the first non-space character"""
     must, must_not = set(), set()
@@ -673,6 +689,7 @@ REFS = {
                       {"strict": True, "line_length": 12, "heading_line_length": 30, "code_block_line_length": 30},
                       {"strict": True, "line_length": 30, "heading_line_length": 30, "code_block_line_length": 8},
                       {"strict": True, "line_length": 10, "headings": False, "code_blocks": False}]),
+    "md018": (md018, [{}]),
     "md019": (md019, [{}]),
     "md022": (md022, [{}]),
     "md023": (md023, [{}]),
